@@ -98,6 +98,10 @@ fn tokenize(to_parse: &str) -> Result<Vec<Token>, String> {
     let chrs = str_to_chars!(s);
     let length = chrs.len();
 
+    // True between the right parenthesis of a group
+    // and the next separator (comma, semicolon).
+    let mut after_group = false;
+
     // Find a separator (comma, semicolon), if there is one.
     let mut previous = '#';  // random
 
@@ -139,8 +143,14 @@ fn tokenize(to_parse: &str) -> Result<Vec<Token>, String> {
             top = pop(&mut parse_stk);
             if top == TokenType::Group {
                 let subgoal = chars_to_string!(chrs[start_index..i]);
-                tokens.push(make_leaf_token(&subgoal));
+                // Directly after a group, there is no subgoal: ((a; b))
+                if !(after_group && subgoal.trim().len() == 0) {
+                    tokens.push(make_leaf_token(&subgoal));
+                }
                 tokens.push(make_leaf_token(")"));
+                // The text of the group has been dealt with.
+                start_index = i + 1;
+                after_group = true;
             } else if top != TokenType::Complex {
                 let msg = format!("tokenize() - Unmatched parenthesis: {}", s);
                 return Err(msg);
@@ -167,14 +177,21 @@ fn tokenize(to_parse: &str) -> Result<Vec<Token>, String> {
                 }
                 if no_esc(ch, ',', previous) {   // And
                     let subgoal = chars_to_string!(chrs[start_index..i]);
-                    tokens.push(make_leaf_token(&subgoal));
+                    // Directly after a group, there is no subgoal: (a; b), c
+                    if !(after_group && subgoal.trim().len() == 0) {
+                        tokens.push(make_leaf_token(&subgoal));
+                    }
                     tokens.push(make_leaf_token(","));
                     start_index = i + 1;
+                    after_group = false;
                 } else if no_esc(ch, ';', previous) {   // Or
                     let subgoal = chars_to_string!(chrs[start_index..i]);
-                    tokens.push(make_leaf_token(&subgoal));
+                    if !(after_group && subgoal.trim().len() == 0) {
+                        tokens.push(make_leaf_token(&subgoal));
+                    }
                     tokens.push(make_leaf_token(";"));
                     start_index = i + 1;
+                    after_group = false;
                 }
             }
         } // else
@@ -191,7 +208,9 @@ fn tokenize(to_parse: &str) -> Result<Vec<Token>, String> {
 
     if length - start_index > 0 {
         let subgoal = chars_to_string!(chrs[start_index..length]);
-        tokens.push(make_leaf_token(&subgoal));
+        if !(after_group && subgoal.trim().len() == 0) {
+            tokens.push(make_leaf_token(&subgoal));
+        }
     }
 
     return Ok(tokens);
@@ -239,7 +258,19 @@ fn no_esc(check: char, match_char: char, previous: char) -> bool {
 /// # Return
 /// * `Token`
 ///
-fn group_tokens(tokens: &Vec<Token>, mut index: usize) -> Token {
+fn group_tokens(tokens: &Vec<Token>, index: usize) -> Token {
+    let (token, _) = group_tokens_from(tokens, index);
+    return token;
+} // group_tokens
+
+// Does the work of group_tokens(). Besides the GROUP token, it returns
+// the index of the token which ended the group: the index of the right
+// parenthesis, or the number of tokens, if there was none.
+//
+// The caller cannot calculate this index from the number of children of
+// the group, because a child which is itself a group stands for several
+// tokens: ((a, b), c), d
+fn group_tokens_from(tokens: &Vec<Token>, mut index: usize) -> (Token, usize) {
 
     let mut new_tokens: Vec<Token> = vec![];
     let size = tokens.len();
@@ -250,26 +281,27 @@ fn group_tokens(tokens: &Vec<Token>, mut index: usize) -> Token {
         let the_type = token.get_type();
 
         if the_type == TokenType::LParen {
-            index += 1;
             // Make a GROUP token.
-            let t = group_tokens(tokens, index);
-            // Skip past tokens already processed.
-            // +1 for right parenthesis
-            index += t.number_of_children() + 1;
+            let (t, end) = group_tokens_from(tokens, index + 1);
             new_tokens.push(t);
+            // Skip past tokens already processed.
+            index = end;  // index of right parenthesis
+            // A comma after the group carries no information
+            // (see group_and_tokens), and has always been dropped.
+            if index + 1 < size &&
+               tokens[index + 1].get_type() == TokenType::Comma { index += 1; }
         } else if the_type == TokenType::RParen {
-            // Add all remaining tokens to the list.
-            return make_branch_token(TokenType::Group, new_tokens);
+            return (make_branch_token(TokenType::Group, new_tokens), index);
         } else {
             new_tokens.push(token);
         }
         index += 1;
 
-    } // for
+    } // while
 
-    return make_branch_token(TokenType::Group, new_tokens)
+    return (make_branch_token(TokenType::Group, new_tokens), index);
 
-} // group_tokens
+} // group_tokens_from
 
 
 /// group_and_tokens()
